@@ -261,6 +261,7 @@ func c10Scenarios(tier string) []*Scenario {
 	out = append(out,
 		c10Server(c10P{Traffic: []string{"c"}}, b),
 		c10Server(c10P{Traffic: []string{"c", "c"}}, bb),
+		c10Server(c10P{Traffic: []string{"c", "c"}}, Bounds{1, 1, 1}), // with one environment deviation
 		c10Server(c10P{Traffic: []string{"[cc]", "c"}}, bb),
 		c10Server(c10P{Traffic: []string{"c", "m"}}, bb),
 		c10Server(c10P{Traffic: []string{"c"}, Notify: true}, b),
